@@ -159,8 +159,9 @@ Definition have_instructions (cs : list component) : bool :=
   existsb (fun c => negb (Z.land (c_flags c) 256 =? 0)) cs.
 
 Definition point_ok (p : point) : Prop := i16_ok (p_x p) /\ i16_ok (p_y p).
-(* the deltas a TrueType glyph can hold are int16; a build with overflow checks additionally
-   needs them to be so (a release build wraps to the right coordinate) *)
+(* the deltas a TrueType glyph can hold are int16.  The WOFF2 decoder does not need this (the
+   triplets carry 16-bit magnitudes plus a sign and the accumulation is modulo 2^16); the glyf
+   writer does: SimpleGlyph::write refuses wider deltas with a WriteError *)
 Fixpoint deltas_ok (px py : Z) (ps : list point) : Prop :=
   match ps with
   | [] => True
@@ -169,34 +170,33 @@ Fixpoint deltas_ok (px py : Z) (ps : list point) : Prop :=
 Fixpoint increasing (prev : Z) (l : list Z) : Prop :=
   match l with [] => True | e :: r => prev < e /\ increasing e r end.
 
-Definition simple_ok (m : mode) (g : simple_glyph) : Prop :=
+Definition simple_ok (g : simple_glyph) : Prop :=
   sg_end_pts g <> [] /\ increasing (-1) (sg_end_pts g) /\
   last (sg_end_pts g) 0 + 1 = len (sg_points g) /\ len (sg_points g) < 65536 /\
   len (sg_end_pts g) < 32768 /\
   Forall point_ok (sg_points g) /\
-  (m = Debug -> deltas_ok 0 0 (sg_points g)) /\
   len (sg_instr g) < 65536 /\ bytes_ok (sg_instr g) = true /\ bbox_ok (sg_bbox g).
 
-Inductive encodes_glyph (m : mode) : glyph -> contrib -> Prop :=
+Inductive encodes_glyph : glyph -> contrib -> Prop :=
 | EG_empty :
-    encodes_glyph m GEmpty
+    encodes_glyph GEmpty
       {| k_nc := [0; 0]; k_np := []; k_fl := []; k_gl := []; k_comp := []; k_bbox := [];
          k_ins := []; k_bit := false |}
 | EG_simple : forall g np_encs fl gl ilen explicit,
-    simple_ok m g ->
+    simple_ok g ->
     Forall2 encodes_255 np_encs (contour_counts (-1) (sg_end_pts g)) ->
     encodes_points 0 0 (sg_points g) fl gl ->
     encodes_255 ilen (len (sg_instr g)) ->
     (* the bounding box may be omitted only when it is the one computed from the points *)
     (explicit = false -> bbox_from_points (sg_points g) = Ok (sg_bbox g)) ->
-    encodes_glyph m (GSimple g)
+    encodes_glyph (GSimple g)
       {| k_nc := wr_i16 (len (sg_end_pts g)); k_np := concat np_encs; k_fl := fl;
          k_gl := gl ++ ilen; k_comp := []; k_bbox := if explicit then wr_bbox (sg_bbox g) else [];
          k_ins := sg_instr g; k_bit := explicit |}
 | EG_composite : forall bb comps instr ilen,
     components_ok comps -> bbox_ok bb -> bytes_ok instr = true -> len instr < 65536 ->
     (if have_instructions comps then encodes_255 ilen (len instr) else ilen = [] /\ instr = []) ->
-    encodes_glyph m (GComposite bb comps instr)
+    encodes_glyph (GComposite bb comps instr)
       {| k_nc := wr_i16 (-1); k_np := []; k_fl := []; k_gl := ilen;
          k_comp := flat_map write_component comps; k_bbox := wr_bbox bb; k_ins := instr;
          k_bit := true |}.
@@ -220,9 +220,9 @@ Definition tglyf_bytes (index_format option_flags : Z) (bm : list Z) (cs : list 
   ++ wr_u32 (len comp) ++ wr_u32 (len bm + len bb) ++ wr_u32 (len ins)
   ++ nc ++ np ++ fl ++ gl ++ comp ++ bm ++ bb ++ ins.
 
-Definition encodes_glyf_table (m : mode) (gs : list glyph) (bytes : list Z) : Prop :=
+Definition encodes_glyf_table (gs : list glyph) (bytes : list Z) : Prop :=
   exists cs bm index_format option_flags,
-    Forall2 (encodes_glyph m) gs cs /\ len gs < 65536 /\
+    Forall2 encodes_glyph gs cs /\ len gs < 65536 /\
     bitmap_ok bm (map k_bit cs) /\
     0 <= index_format < 65536 /\ 0 <= option_flags < 4294967296 /\
     len bytes < 4294967296 /\
